@@ -2,6 +2,7 @@
 // Everything here is environment; the library code above it is the real one from /repo/include.
 #ifndef VK_WORLD_HPP
 #define VK_WORLD_HPP
+#include "vk_api.h"
 #include <boost/asio/execution.hpp>
 #include <boost/asio/execution_context.hpp>
 #include <boost/asio/any_io_executor.hpp>
@@ -98,7 +99,8 @@ inline bool run_one() {
   node* n = w.q_head; w.q_head = n->next; if (!w.q_head) w.q_tail = &w.q_head; w.q_len--;
   w.handlers_run++; n->run(n); return true;
 }
-inline int drain(int limit = 100000) { int k = 0; while (k < limit && run_one()) k++; return k; }
+// run handlers until the queue is empty; a queue that never empties is a livelock (e.g. zero-length reads issued forever)
+inline int drain(int limit = 1500) { int k = 0; while (k < limit && run_one()) k++; vk_assert(k < limit, "livelock: the handler queue does not drain (busy loop without progress)"); return k; }
 
 template <class H, class... Args> void post_completion(H&& h, Args&&... args) {
   asio::post(executor{}, asio::prepend(std::forward<H>(h), std::forward<Args>(args)...));
